@@ -185,4 +185,54 @@ CANARIES: Dict[str, Dict[str, Any]] = {
         old="0, 2**self.srbits, x.shape", new="0, 2 ** (self.srbits - 1), x.shape",
         job="c14:quantise[E4M3,sr=4,core]", expect=["draw_is_uniform"],
     ),
+    "linear-module-drops-constraint": dict(
+        props=["C08"], file="unit_scaling/_modules.py", module="unit_scaling._modules",
+        old="return U.linear(input, self.weight, self.bias, self.constraint)", new="return U.linear(input, self.weight, self.bias)",
+        job="mod:Linear[bias=False]", expect=["option_constraint_honoured"],
+    ),
+    "conv1d-module-drops-constraint": dict(
+        props=["C08"], file="unit_scaling/_modules.py", module="unit_scaling._modules",
+        old="            self.groups,\n            self.constraint,\n", new="            self.groups,\n",
+        job="mod:Conv1d[bias=False,padding_mode=zeros]", expect=["option_constraint_honoured"],
+    ),
+    "conv1d-module-pads-twice": dict(
+        props=["C08"], file="unit_scaling/_modules.py", module="unit_scaling._modules",
+        old="            padding = 0  # already applied above\n", new="            pass\n",
+        job="mod:Conv1d[bias=False,padding_mode=circular]", expect=["option_padding_honoured"],
+    ),
+    "readout-weight-tagged-as-weight": dict(
+        props=["C08", "C12"], file="unit_scaling/_modules.py", module="unit_scaling._modules",
+        old='weight_mup_type: MupType = "output",', new='weight_mup_type: MupType = "weight",',
+        job="mod:LinearReadout(defaults)[]", expect=["parameter_weight_mup_type"],
+    ),
+    "embedding-module-drops-padding_idx": dict(
+        props=["C08"], file="unit_scaling/_modules.py", module="unit_scaling._modules",
+        old="            self.padding_idx,\n            self.max_norm,", new="            None,\n            self.max_norm,",
+        job="mod:Embedding[padding_idx=given]", expect=["option_padding_idx_honoured"],
+    ),
+    "mhsa-ignores-mult": dict(
+        props=["C08"], file="unit_scaling/_modules.py", module="unit_scaling._modules",
+        old="is_causal=self.is_causal, mult=self.mult", new="is_causal=self.is_causal",
+        job="mod:MHSA", expect=["option_mult_honoured"],
+    ),
+    "stack-swaps-attention-and-mlp-tau": dict(
+        props=["C07"], file="unit_scaling/_modules.py", module="unit_scaling._modules",
+        old="mhsa_tau=residual_scaling(2 * i, 2 * layers),", new="mhsa_tau=residual_scaling(2 * i + 1, 2 * layers),",
+        job="mod:TransformerStack", expect=["attention_tau_is_rule"],
+    ),
+    "stack-passes-layers-not-branches": dict(
+        props=["C07"], file="unit_scaling/_modules.py", module="unit_scaling._modules",
+        old="mlp_tau=residual_scaling(2 * i + 1, 2 * layers),", new="mlp_tau=residual_scaling(2 * i + 1, layers),",
+        job="mod:TransformerStack", expect=["mlp_tau_is_rule"],
+    ),
+    "layer-second-split-uses-mhsa-tau": dict(
+        props=["C07", "C08"], file="unit_scaling/_modules.py", module="unit_scaling._modules",
+        old="input, skip = U.residual_split(input, tau=self.mlp_tau)", new="input, skip = U.residual_split(input, tau=self.mhsa_tau)",
+        job="mod:TransformerLayer", expect=["mlp_tau_used_in_second_split_and_add"],
+    ),
+    "rmsnorm-gain-tagged-weight": dict(
+        props=["C08"], file="unit_scaling/_modules.py", module="unit_scaling._modules",
+        old='Parameter(torch.ones(normalized_shape), "norm")', new='Parameter(torch.ones(normalized_shape), "weight")',
+        job="mod:RMSNorm[affine=True,shape=int]", expect=["parameter_weight_mup_type"],
+    ),
 }
